@@ -178,6 +178,9 @@ func buildConnModel(v *tunView) *connModel {
 		if x.F.OK && x.F.Svc == svcConnReq {
 			evs = append(evs, ev{x.At, -1, x.Werr})
 		}
+		if x.F.OK && x.F.Svc == svcConnStateReq {
+			evs = append(evs, ev{x.At, -2, x.Werr}) // a heartbeat exchange began (even if the write failed)
+		}
 	}
 	sort.SliceStable(evs, func(i, j int) bool { return evs[i].at.Seq < evs[j].at.Seq })
 	const (
@@ -189,6 +192,7 @@ func buildConnModel(v *tunView) *connModel {
 	var cur *connEpoch
 	var attempt *Stamp // first transmission of the connect attempt in progress
 	lastRx := -1       // index of the last frame read so far
+	hbInEpoch := false // the client has started a heartbeat exchange in the current epoch
 	endEpoch := func(at Stamp, why string, ambig int) {
 		if cur != nil {
 			cur.End, cur.EndWhy, cur.Ambig = at, why, ambig
@@ -200,6 +204,12 @@ func buildConnModel(v *tunView) *connModel {
 			// after Close was invoked nothing is required of frames still being read
 			if ev.rxi >= 0 {
 				m.mode[ev.rxi] = -2
+			}
+			continue
+		}
+		if ev.rxi == -2 {
+			if mode == mdProcess {
+				hbInEpoch = true
 			}
 			continue
 		}
@@ -224,11 +234,11 @@ func buildConnModel(v *tunView) *connModel {
 		}
 		if ev.rxi < 0 {
 			// the client wrote a connect request
-			if mode == mdProcess && ev.at.T-cur.Start.T <= v.eps && (lastRx < 0 || v.rx[lastRx].At.Seq <= cur.Start.Seq) {
+			if mode == mdProcess && !hbInEpoch && ev.at.T-cur.Start.T <= v.eps && (lastRx < 0 || v.rx[lastRx].At.Seq <= cur.Start.Seq) {
 				// The connect exchange polls its resend ticker and the socket in one select: a
 				// retransmission may still leave in the instant in which the response has been
 				// read but not yet taken - or later by whatever stall the simulator injected into
-				// the hand-over. (A heartbeat failure cannot happen that early.)
+				// the hand-over. (A heartbeat failure cannot happen that early unless the heartbeat request could not even be written - hence hbInEpoch.)
 				continue
 			}
 			switch mode {
@@ -282,6 +292,7 @@ func buildConnModel(v *tunView) *connModel {
 			switch x.F.Status {
 			case 0:
 				cur = &connEpoch{Channel: x.F.Channel, Start: x.At, Ambig: -1, StallUntil: x.At.T}
+				hbInEpoch = false
 				// The receive loop queues for the sender lock behind the Sends that were in
 				// progress or queued when it read the response (hand-over in arrival order): it
 				// starts to work when the last of them has returned.
